@@ -32,6 +32,12 @@ func main() {
 		overlayEdges(atoi(os.Args[2]), "trace")
 	case "overlay-record":
 		overlayRecord(atoi(os.Args[2]), atoi(os.Args[3]))
+	case "digest-pairs":
+		digestPairs(atoi(os.Args[2]), atoi(os.Args[3]))
+	case "digest-ledger":
+		digestLedger(atoi(os.Args[2]), atoi(os.Args[3]))
+	case "state-roots":
+		stateRoots()
 	default:
 		vio.Fatal("unknown command %s", os.Args[1])
 	}
